@@ -548,7 +548,7 @@ SubjSubscribe(h, j, o) ==
             ELSE IF h1.sbj[j].err.has THEN CallError(h1, o, h1.sbj[j].err.v)
             ELSE IF ~h1.sbj[j].last.has THEN CallComplete(h1, o)
             ELSE LET h2 == CallNext(h1, o, h1.sbj[j].last.v)
-                 IN IF h2.stuck # "" THEN h2 ELSE
+                 IN IF h2.stuck # "" \/ ~IsSub(h2, o) THEN h2 ELSE          \* the subscriber may have finished on the value it was handed
                     LET slot == Len(h2.slots) + 1
                         f == Len(h2.obs) + 1
                         h3 == [h2 EXCEPT !.slots = Append(@, [some |-> FALSE, obs |-> 0, live |-> FALSE]),
@@ -569,7 +569,9 @@ SubjSubscribe(h, j, o) ==
                    ELSE IF h4.sbj[j].err.has THEN CallError(h4, o, h4.sbj[j].err.v)
                    ELSE IF h4.sbj[j].completed THEN CallComplete(h4, o) ELSE h4
              h6 == Release(Release(Release(h5)))
-         IN IF h6.stuck # "" THEN h6 ELSE [h6 EXCEPT !.slots[slot] = [some |-> TRUE, obs |-> f, live |-> TRUE]]
+             h7 == IF h6.stuck # "" THEN h6 ELSE [h6 EXCEPT !.slots[slot] = [some |-> TRUE, obs |-> f, live |-> TRUE]]
+         \* a subscriber that finished while it was being subscribed found the slot still empty: release the inner subscription now
+         IN IF h7.stuck # "" \/ IsSub(h7, o) THEN h7 ELSE SlotUnsub(Touch(h7, "slot", "R"), slot)
     [] OTHER -> PlainSubscribe(h, j, o)
 
 \* ---------------------------------------------------------------- ownership (C17): Arc graph derived from the heap
